@@ -225,6 +225,12 @@ MANIFEST = {
     'technique': 'symbolic execution of the real source with z3 (SX: HDF5 / JSON subset reads over the h5py model) + CrossHair over selector-encoded serialisations and ID subsets for the raw-text JSON slicer',
 }
 
+
+# heavy shards are split into disjoint parts of their path tree (run in parallel; together exactly the unsplit exploration)
+def slices(job, tier):
+    h, a = job
+    return 3 if h == 'hdf5' else 1
+
 OPTS = {'quick': {'time_budget': 45}, 'thorough': {'time_budget': 900}}
 
 META = {
